@@ -5,11 +5,15 @@ has done nothing with rtflite but import it):
 
     python -m harness.props.c14_hist histories < {"tasks":[{"pool":..,"history":..}, ...]}  > [result, ...]
     python -m harness.props.c14_hist fresh     < {"pool":.., "target": did}                 > result
+    python -m harness.props.c14_hist fresh_many < {"pools":{key:pool..},"tasks":[[key,did], ...]} > [result, ...]
 
 `histories`: every task runs in its own freshly forked child of this process (Pool, maxtasksperchild=1),
 which has imported rtflite and nothing else, so each history starts from the state of a new interpreter
 and replays exactly.  `fresh`: this very process builds only the target's own objects, constructs the
-target and encodes it — the baseline the property compares with.
+target and encodes it — the baseline the property compares with.  `fresh_many`: the same for many targets
+under ONE hash seed (the interpreter this module runs in was started with it), every target in its own forked
+child of a process that has imported rtflite and nothing else: the references under further hash seeds ("a
+fresh interpreter" is any fresh interpreter, so all references must agree).
 
 Pool / history format (plain JSON, integers are identities):
   pool    = {"components":[{"cls":"RTFBody","kw":{..}}..], "frames":[{"cols":[..],"rows":[[..]]}..],
@@ -179,6 +183,44 @@ def encode_obs(doc, keep=False):
     return dict(ok=sha(s), len=len(s), pages=len(_PAGE.findall(s)) + 1), (s if keep else None)
 
 
+def _first_pos(s, token):
+    m = re.search(r"(?<![A-Za-z0-9])" + re.escape(token) + r"(?![A-Za-z0-9])", s)
+    return None if m is None else m.start()
+
+
+def heading_order(s, fr, kw):
+    """Where a single-section document emits the values of its `page_by` columns as spanning heading rows and of
+    its `subline_by` columns in the subline heading: the columns in the order in which the FIRST data row's values
+    first appear in the string (public output only).  A key is reported only when every value is non-null, the
+    values are pairwise different and each occurs as a whole word."""
+    out = {}
+    if s is None or not fr["rows"]:
+        return out
+    row0 = dict(zip(fr["cols"], fr["rows"][0]))
+    for key in ("page_by", "subline_by"):
+        cols = list(kw.get(key) or [])
+        if not cols or any(c not in row0 for c in cols):
+            continue
+        if key == "page_by" and kw.get("new_page") and kw.get("pageby_row", "column") == "column":
+            continue                     # the columns stay table columns (frame order)
+        vals = [row0[c] for c in cols]
+        if any(v is None for v in vals) or len(set(map(str, vals))) < len(vals):
+            continue
+        pos = [_first_pos(s, str(v)) for v in vals]
+        if any(p is None for p in pos) or len(set(pos)) < len(pos):
+            continue
+        out[key] = [c for _, c in sorted(zip(pos, cols))]
+    return out
+
+
+def doc_heading_order(pool, did, s):
+    dd = pool["docs"][did]
+    if dd["kind"] != "single" or s is None:
+        return {}
+    f, b = dd["secs"][0]
+    return heading_order(s, pool["frames"][f], pool["components"][b]["kw"])
+
+
 def internals():
     """unit-level peek at the two process-global stores (internal names; 'unavailable' after a refactor)"""
     out = {}
@@ -293,6 +335,7 @@ def run_history(task):
         if doc is not None:
             tgt["widths"] = doc_widths(doc)
             tgt["out"], tgt["string"] = encode_obs(doc, keep=True)
+            tgt["order"] = doc_heading_order(pool, hist["target"], tgt["string"])
             if hist.get("target_twice"):
                 tgt["out2"], _ = encode_obs(doc)
             tgt.update(internals())
@@ -328,8 +371,21 @@ def run_fresh(req):
         doc = build_doc(dd, comps, frames)
     except Exception as e:  # noqa: BLE001
         return dict(construct=dict(cls=exc_class(e), msg=str(e)[:200]))
-    out, s = encode_obs(doc, keep=bool(req.get("keep")))
-    return dict(out=out, string=s, widths=doc_widths(doc), hashseed=os.environ.get("PYTHONHASHSEED"))
+    out, s = encode_obs(doc, keep=True)
+    return dict(out=out, string=s if req.get("keep") else None, widths=doc_widths(doc),
+                order=doc_heading_order(pool, req["target"], s), hashseed=os.environ.get("PYTHONHASHSEED"))
+
+
+_POOLS = {}
+
+
+def run_fresh_task(task):
+    try:
+        return run_fresh(dict(pool=_POOLS[task[0]], target=task[1]))
+    except Exception as e:  # noqa: BLE001  — machinery problem inside the runner
+        import traceback
+
+        return dict(machinery=f"{type(e).__name__}: {e}", tb=traceback.format_exc()[-1500:])
 
 
 def main(argv):
@@ -337,6 +393,17 @@ def main(argv):
     req = json.loads(sys.stdin.read())
     if mode == "fresh":
         res = run_fresh(req)
+    elif mode == "fresh_many":
+        import multiprocessing as mp
+
+        import polars  # noqa: F401  (pay the import once, before forking)
+        import rtflite  # noqa: F401
+
+        tasks = req["tasks"]
+        _POOLS.update(req["pools"])          # inherited by the forked children
+        procs = int(req.get("procs") or min(16, os.cpu_count() or 4))
+        with mp.get_context("fork").Pool(max(1, min(procs, len(tasks))), maxtasksperchild=1) as pool:
+            res = pool.map(run_fresh_task, tasks, chunksize=1)
     else:
         import multiprocessing as mp
 
